@@ -273,6 +273,8 @@ def _run_system(unit, rec):
                     for sgn, kind in ((1, "facet+"), (-1, "facet-")):
                         y = cen + sgn * dl * nu
                         q = 1.0 / m + y @ Bas
+                        if np.any(q < 0):
+                            continue  # chromaticities are defined for non-negative captures only
                         for f in (1.0, 5.0):
                             CT.append((kind, f * q))
         for v in V[:8]:
